@@ -3,4 +3,5 @@ NEXT Next
 CONSTANTS W = 4
  Variant = "ok"
 INVARIANT Correct
+INVARIANT MulCorrect
 CHECK_DEADLOCK FALSE
